@@ -137,7 +137,7 @@ func TestVerifC19(t *testing.T) {
 
 	// (2) sequences × subscribers × undrained counts, FIFO-of-8 model.
 	rr := r.Rand("c19", "seq")
-	n := r.Pick(3000, 200000)
+	n := r.Pick(3000, 1000000)
 	ifaces := []string{"eth0", "eth1", "wan0"}
 	for i := 0; i < n; i++ {
 		id := fmt.Sprintf("seq/%d", i)
@@ -336,7 +336,7 @@ func c19Model() porcupine.Model {
 
 func c19Linearizability(t *testing.T, r *vlib.Run) {
 	rr := r.Rand("c19", "lin")
-	n := r.Pick(500, 60000)
+	n := r.Pick(500, 200000)
 	model := c19Model()
 	for i := 0; i < n; i++ {
 		id := fmt.Sprintf("lin/%d", i)
